@@ -552,13 +552,14 @@ def f_pow(a, b):
 
 # ----------------------------------------------------------------------------------------------
 class IV:
-    __slots__ = ('lo', 'hi', 'km', 'kv', 'tag', 'vs')
+    __slots__ = ('lo', 'hi', 'km', 'kv', 'tag', 'vs', 'poison')
 
-    def __init__(self, lo, hi, km=0, kv=0, tag=None, vs=None):
+    def __init__(self, lo, hi, km=0, kv=0, tag=None, vs=None, poison=None):
         self.lo, self.hi = lo, hi
         self.km, self.kv = km, kv          # known bits: mask, value
         self.tag = tag                     # operand of the bitcast float -> int that produced this value
         self.vs = vs if vs is not None else (frozenset((lo,)) if lo == hi else None)   # small set of possible values
+        self.poison = poison               # (inst, detail) of an undefined float -> int conversion this value stems from
 
     @staticmethod
     def top(bits):
@@ -582,7 +583,7 @@ class IV:
         vs = None
         if self.vs is not None and o.vs is not None and len(self.vs | o.vs) <= 8:
             vs = self.vs | o.vs
-        return IV(min(self.lo, o.lo), max(self.hi, o.hi), km, self.kv & km, vs=vs)
+        return IV(min(self.lo, o.lo), max(self.hi, o.hi), km, self.kv & km, vs=vs, poison=self.poison or o.poison)
 
     def values(self):
         """the possible values as a set (None when there are too many)"""
@@ -594,7 +595,8 @@ class IV:
 
     def widen(self, n, bits):
         t = IV.top(bits)
-        return IV(n.lo if n.lo >= self.lo else min(t.lo, n.lo), n.hi if n.hi <= self.hi else max(t.hi, n.hi), n.km, n.kv)
+        return IV(n.lo if n.lo >= self.lo else min(t.lo, n.lo), n.hi if n.hi <= self.hi else max(t.hi, n.hi), n.km, n.kv,
+                  poison=n.poison)
 
     def __repr__(self):
         s = 'I[%d, %d]' % (self.lo, self.hi)
@@ -647,10 +649,10 @@ class PV:
 
 class CV:
     """condition: op in fcmp icmp and or not const unk sign;  val: True / False / None"""
-    __slots__ = ('op', 'args', 'val')
+    __slots__ = ('op', 'args', 'val', 'poison')
 
-    def __init__(self, op, args=(), val=None):
-        self.op, self.args, self.val = op, args, val
+    def __init__(self, op, args=(), val=None, poison=None):
+        self.op, self.args, self.val, self.poison = op, args, val, poison
 
     def key(self):
         return ('C', self.val)
